@@ -5,15 +5,27 @@
 //! exit 1 + `VIOLATION property=<id> replay=<path>`: a violation that replays deterministically;
 //! exit 2: machinery failure (never a verdict).
 
+mod dformat;
 mod framework;
+mod hyb;
 mod memdrive;
 mod memmodel;
+mod oracle_r;
+mod props_hyb;
+mod props_hyb2;
 mod props_mem;
 mod seq;
+mod simio;
 
 pub fn all_props() -> Vec<Box<dyn framework::Prop>> {
     let mut v: Vec<Box<dyn framework::Prop>> = vec![];
     for p in props_mem::props() {
+        v.push(Box::new(p));
+    }
+    for p in props_hyb::props() {
+        v.push(Box::new(p));
+    }
+    for p in props_hyb2::props() {
         v.push(Box::new(p));
     }
     v
